@@ -1590,9 +1590,11 @@ class sptensor:
         [0, 1] = 3.0
         """
         order = parse_one_d(order)
-        # Error check
-        if self.ndims != order.size or np.any(
-            np.sort(order) != np.arange(0, self.ndims)
+        # Error check (a boolean array would pass the sort test and then act as a mask)
+        if (
+            order.dtype == bool
+            or self.ndims != order.size
+            or np.any(np.sort(order) != np.arange(0, self.ndims))
         ):
             assert False, "Invalid permutation order"
 
